@@ -1,10 +1,12 @@
 import GeomV.C04.NaN
 import GeomV.C04.Spec
+import GeomV.C04.SpecNaN
 import Mathlib.Order.BoundedOrder.Basic
 import Mathlib.Order.Lattice
 import Mathlib.Order.MinMax
 import Mathlib.Order.BoundedOrder.Lattice
 import GeomV.C04.Lemmas
+import GeomV.C04.KeyOrder
 /-!
 # C04 — what holds with NaN coordinates
 
@@ -212,17 +214,6 @@ theorem foldPolys_flat (T : List (Pt β)) (ps : List (List (List (Pt β)))) :
     rw [extendPointss_flat, extend_flat, ih, List.append_assoc]
 
 mutual
-/-- no `*Bounds` value anywhere (a hand-written box with a NaN side is not the fold of its corners) -/
-def noBoxes : Geom β → Bool
-  | .bounds _ _ => false
-  | .collection gs => noBoxesL gs
-  | _ => true
-def noBoxesL : List (Geom β) → Bool
-  | [] => true
-  | g :: gs => noBoxes g && noBoxesL gs
-end
-
-mutual
 theorem bounds_flat (g : Geom β) (h : noNil g = true) (hb : noBoxes g = true) :
     boundsG g = .ok (Box.new.extendPoints (vertices g)) := by
   cases g with
@@ -399,5 +390,204 @@ theorem C04_nan_bounds (hne : (⊥ : α) < ⊤) (g : Geom (NV α)) (h : noNil g 
   have := NV.nlaws hne
   C04_nan_bounds_flat g h hb
 
+/-! ## the envelope clause with NaN (`Spec.IsEnvelopeNaN`, SpecNaN.lean) -/
+
+theorem foldl_min_top_cons (v : α) (vs : List α) : (v :: vs).foldl min ⊤ = min v (vs.foldl min ⊤) := by
+  simp only [List.foldl_cons]; rw [foldl_min_val, top_inf_eq]
+
+theorem foldl_max_bot_cons (v : α) (vs : List α) : (v :: vs).foldl max ⊥ = max v (vs.foldl max ⊥) := by
+  simp only [List.foldl_cons]; rw [foldl_max_val, bot_sup_eq]
+
+theorem foldl_min_top_le (vs : List α) : ∀ v ∈ vs, vs.foldl min ⊤ ≤ v := by
+  induction vs with
+  | nil => simp
+  | cons w vs ih =>
+    intro v hv
+    rw [foldl_min_top_cons]
+    rcases List.mem_cons.1 hv with rfl | hv
+    · exact min_le_left _ _
+    · exact le_trans (min_le_right _ _) (ih v hv)
+
+theorem foldl_max_bot_ge (vs : List α) : ∀ v ∈ vs, v ≤ vs.foldl max ⊥ := by
+  induction vs with
+  | nil => simp
+  | cons w vs ih =>
+    intro v hv
+    rw [foldl_max_bot_cons]
+    rcases List.mem_cons.1 hv with rfl | hv
+    · exact le_max_left _ _
+    · exact le_trans (ih v hv) (le_max_right _ _)
+
+theorem foldl_min_top_mem (vs : List α) : vs.foldl min ⊤ ∈ vs ∨ (vs = [] ∧ vs.foldl min ⊤ = ⊤) := by
+  induction vs with
+  | nil => simp
+  | cons w vs ih =>
+    left
+    rw [foldl_min_top_cons]
+    rcases min_choice w (vs.foldl min ⊤) with h | h
+    · rw [h]; exact List.mem_cons_self
+    · rw [h]
+      rcases ih with ih | ⟨rfl, _⟩
+      · exact List.mem_cons_of_mem _ ih
+      · simp at h ⊢; exact h.symm
+
+theorem foldl_max_bot_mem (vs : List α) : vs.foldl max ⊥ ∈ vs ∨ (vs = [] ∧ vs.foldl max ⊥ = ⊥) := by
+  induction vs with
+  | nil => simp
+  | cons w vs ih =>
+    left
+    rw [foldl_max_bot_cons]
+    rcases max_choice w (vs.foldl max ⊥) with h | h
+    · rw [h]; exact List.mem_cons_self
+    · rw [h]
+      rcases ih with ih | ⟨rfl, _⟩
+      · exact List.mem_cons_of_mem _ ih
+      · simp at h ⊢; exact h.symm
+
+theorem loSide_minL (hne : (⊥ : α) < ⊤) (l : List (NV α)) : Spec.LoSideNaN l (minL l) := by
+  rw [C04_nan_axis_min hne]
+  by_cases h1 : NV.val (⊥ : α) ∈ l
+  · simp only [h1, if_true]
+    refine ⟨fun _ => by simp, fun a ha => ?_⟩
+    injection ha with ha; subst ha
+    exact ⟨fun v _ => bot_le, Or.inl h1⟩
+  · by_cases h2 : NV.nan ∈ l
+    · simp only [h1, h2, if_true, if_false]
+      exact ⟨fun h => absurd h2 h, fun a ha => by cases ha⟩
+    · simp only [h1, h2, if_false]
+      refine ⟨fun _ => by simp, fun a ha => ?_⟩
+      injection ha with ha; subst ha
+      refine ⟨fun v hv => foldl_min_top_le _ v ((NV.mem_vals l v).2 hv), ?_⟩
+      rcases foldl_min_top_mem (l.filterMap NV.toVal) with h | ⟨h, h'⟩
+      · exact Or.inl ((NV.mem_vals l _).1 h)
+      · right
+        refine ⟨fun v hv => ?_, by rw [h']; rfl⟩
+        have := (NV.mem_vals l v).2 hv
+        rw [h] at this; simp at this
+
+theorem hiSide_maxL (hne : (⊥ : α) < ⊤) (l : List (NV α)) : Spec.HiSideNaN l (maxL l) := by
+  rw [C04_nan_axis_max hne]
+  by_cases h1 : NV.val (⊤ : α) ∈ l
+  · simp only [h1, if_true]
+    refine ⟨fun _ => by simp, fun a ha => ?_⟩
+    injection ha with ha; subst ha
+    exact ⟨fun v _ => le_top, Or.inl h1⟩
+  · by_cases h2 : NV.nan ∈ l
+    · simp only [h1, h2, if_true, if_false]
+      exact ⟨fun h => absurd h2 h, fun a ha => by cases ha⟩
+    · simp only [h1, h2, if_false]
+      refine ⟨fun _ => by simp, fun a ha => ?_⟩
+      injection ha with ha; subst ha
+      refine ⟨fun v hv => foldl_max_bot_ge _ v ((NV.mem_vals l v).2 hv), ?_⟩
+      rcases foldl_max_bot_mem (l.filterMap NV.toVal) with h | ⟨h, h'⟩
+      · exact Or.inl ((NV.mem_vals l _).1 h)
+      · right
+        refine ⟨fun v hv => ?_, by rw [h']; rfl⟩
+        have := (NV.mem_vals l v).2 hv
+        rw [h] at this; simp at this
+
+/-- **C04_nan_envelope.** The envelope clause with NaN coordinates, for the model at float64-with-NaN and every
+geometry without nil / `*Bounds` members: `Bounds()` does not panic, and side by side (`Spec.IsEnvelopeNaN`) an axis
+without NaN has non-NaN sides, and a non-NaN side is a bound of all non-NaN coordinates of its axis attained by one
+of them (or the empty box's side when the axis has no non-NaN coordinate).  So every axis free of NaN carries its
+exact envelope whatever the other axis holds. -/
+theorem C04_nan_envelope (hne : (⊥ : α) < ⊤) (g : Geom (NV α)) (h : noNil g = true) (hb : noBoxes g = true) :
+    ∃ b, boundsG g = .ok b ∧ Spec.IsEnvelopeNaN (vertices g) b :=
+  ⟨_, C04_nan_bounds hne g h hb, loSide_minL hne _, loSide_minL hne _, hiSide_maxL hne _, hiSide_maxL hne _⟩
+
+/-- a `*Bounds` value with NaN sides used as a geometry by itself: `Bounds()` is that box, side for side; it counts
+as having points (`Len() = 4`) unless an axis WITHOUT NaN is inverted (`<` with NaN is false) -/
+theorem C04_nan_box_geometry (mn mx : Pt (NV α)) :
+    boundsG (.bounds mn mx : Geom (NV α)) = .ok ⟨mn, mx⟩ ∧
+    lenG (.bounds mn mx : Geom (NV α)) = .ok (if (mx.x < mn.x ∨ mx.y < mn.y) then 0 else 4) := by
+  refine ⟨rfl, ?_⟩
+  simp only [lenG, Box.empty, Bool.or_eq_true, decide_eq_true_eq]
+
 end nv
+
+/-! ## the judge's decidable form is that specification (any coordinate type, no order laws needed) -/
+section specB
+variable {α : Type} [LE α] [DecidableLE α] [DecidableEq α] [HasInf α]
+
+theorem all_isNotVal (l : List (NV α)) : l.all (fun v => !Spec.isVal v) = true ↔ ∀ v, NV.val v ∉ l := by
+  simp only [List.all_eq_true]
+  constructor
+  · intro h v hv; have := h _ hv; simp [Spec.isVal] at this
+  · intro h x hx; cases x with
+    | nan => rfl
+    | val v => exact absurd hx (h v)
+
+theorem loSideNaNB_iff (l : List (NV α)) (lo : NV α) : Spec.loSideNaNB l lo = true ↔ Spec.LoSideNaN l lo := by
+  cases lo with
+  | nan =>
+    simp only [Spec.loSideNaNB, Spec.LoSideNaN, List.contains_iff_mem]
+    constructor
+    · intro h; exact ⟨fun h' => absurd h h', fun a ha => by cases ha⟩
+    · intro h; by_contra hc; exact h.1 hc rfl
+  | val a =>
+    simp only [Spec.loSideNaNB, Spec.LoSideNaN, Bool.and_eq_true, Bool.or_eq_true, List.contains_iff_mem,
+      decide_eq_true_eq, all_isNotVal]
+    have hall : (l.all (Spec.belowB a) = true) ↔ ∀ v, NV.val v ∈ l → a ≤ v := by
+      simp only [List.all_eq_true]
+      constructor
+      · intro h v hv; simpa [Spec.belowB, Spec.aboveB] using h _ hv
+      · intro h x hx; cases x with
+        | nan => rfl
+        | val v => simpa [Spec.belowB, Spec.aboveB] using h v hx
+    rw [hall]
+    constructor
+    · intro h; refine ⟨fun _ => by simp, fun a' ha' => ?_⟩
+      injection ha' with ha'; subst ha'; exact h
+    · intro h; exact h.2 a rfl
+
+theorem hiSideNaNB_iff (l : List (NV α)) (hi : NV α) : Spec.hiSideNaNB l hi = true ↔ Spec.HiSideNaN l hi := by
+  cases hi with
+  | nan =>
+    simp only [Spec.hiSideNaNB, Spec.HiSideNaN, List.contains_iff_mem]
+    constructor
+    · intro h; exact ⟨fun h' => absurd h h', fun a ha => by cases ha⟩
+    · intro h; by_contra hc; exact h.1 hc rfl
+  | val a =>
+    simp only [Spec.hiSideNaNB, Spec.HiSideNaN, Bool.and_eq_true, Bool.or_eq_true, List.contains_iff_mem,
+      decide_eq_true_eq, all_isNotVal]
+    have hall : (l.all (Spec.aboveB a) = true) ↔ ∀ v, NV.val v ∈ l → v ≤ a := by
+      simp only [List.all_eq_true]
+      constructor
+      · intro h v hv; simpa [Spec.belowB, Spec.aboveB] using h _ hv
+      · intro h x hx; cases x with
+        | nan => rfl
+        | val v => simpa [Spec.belowB, Spec.aboveB] using h v hx
+    rw [hall]
+    constructor
+    · intro h; refine ⟨fun _ => by simp, fun a' ha' => ?_⟩
+      injection ha' with ha'; subst ha'; exact h
+    · intro h; exact h.2 a rfl
+
+/-- **C04_spec_envelopeNaN.** the check the judge runs on `Bounds()` of a geometry with NaN coordinates is the
+specification `Spec.IsEnvelopeNaN` -/
+theorem C04_spec_envelopeNaN (vs : List (Pt (NV α))) (b : Box (NV α)) :
+    Spec.isEnvelopeNaNB vs b = true ↔ Spec.IsEnvelopeNaN vs b := by
+  simp only [Spec.isEnvelopeNaNB, Spec.IsEnvelopeNaN, Bool.and_eq_true, loSideNaNB_iff, hiSideNaNB_iff, and_assoc]
+
+end specB
+
+/-- **C04_nan_exec.** `C04_nan_envelope` for what the judge executes: coordinates `NV FKey` with the core instances of
+NaN.lean/Basic.lean spelled out (the same `boundsG (geomNV g)` and `isEnvelopeNaNB` that Main.lean calls). -/
+theorem C04_nan_exec (g : Geom (NV FKey)) (h : Spec.noNil g = true) (hb : noBoxes g = true) :
+    ∃ b, @boundsG (NV FKey) (@NV.instLT FKey FKey.instLT) (@NV.instMin FKey FKey.instMin FKey.instHasInf _)
+        (@NV.instMax FKey FKey.instMax FKey.instHasInf _) (@NV.instDecidableLT FKey FKey.instLT FKey.instDecLT)
+        (@NV.instHasInf FKey FKey.instHasInf) g = .ok b ∧
+      @Spec.isEnvelopeNaNB FKey FKey.instLE FKey.instDecLE _ FKey.instHasInf
+        (@Spec.vertices (NV FKey) (@NV.instLT FKey FKey.instLT) (@NV.instDecidableLT FKey FKey.instLT FKey.instDecLT) g) b = true := by
+  obtain ⟨b, h1, h2⟩ := C04_nan_envelope (α := FKey) (by decide) g h hb
+  exact ⟨b, h1, (C04_spec_envelopeNaN _ _).2 h2⟩
+
+/-- non-vacuity: a line string with a NaN ordinate satisfies the hypotheses, and its X axis (no NaN) gets the exact
+envelope while the Y sides are NaN -/
+example : Spec.noNil (.lineString [⟨.val (⟨1, by decide⟩ : FKey), .nan⟩, ⟨.val ⟨3, by decide⟩, .val ⟨2, by decide⟩⟩] : Geom (NV FKey)) = true ∧
+    noBoxes (.lineString [⟨.val (⟨1, by decide⟩ : FKey), .nan⟩, ⟨.val ⟨3, by decide⟩, .val ⟨2, by decide⟩⟩] : Geom (NV FKey)) = true ∧
+    boundsG (.lineString [⟨.val (⟨1, by decide⟩ : FKey), .nan⟩, ⟨.val ⟨3, by decide⟩, .val ⟨2, by decide⟩⟩] : Geom (NV FKey)) =
+      .ok ⟨⟨.val ⟨1, by decide⟩, .nan⟩, ⟨.val ⟨3, by decide⟩, .nan⟩⟩ := by
+  decide +kernel
+
 end GeomV.C04
